@@ -34,6 +34,7 @@ import (
 	"github.com/Ptt-official-app/go-pttbbs/ptttype"
 	"github.com/Ptt-official-app/go-pttbbs/types"
 	"github.com/Ptt-official-app/go-pttbbs/types/ansi"
+	"github.com/spf13/viper"
 	"verifharness/internal/bbsenv"
 	"verifharness/internal/hx"
 )
@@ -666,7 +667,7 @@ func ctimeOffset(file []byte) int {
 	for i >= 0 {
 		p := i + len(key)
 		if p+26 <= len(file) && file[p+24] == '\n' && file[p+25] == '\n' {
-			if _, err := time.ParseInLocation("Mon Jan _2 15:04:05 2006", string(file[p:p+24]), types.TIMEZONE); err == nil {
+			if _, err := time.Parse("Mon Jan _2 15:04:05 2006", string(file[p:p+24])); err == nil {
 				return p
 			}
 		}
@@ -776,6 +777,17 @@ func do(line string) {
 			emit(line, constsLine(), "consts", true)
 			return
 		}
+	case "timezone":
+		if H.started && len(ws) == 2 {
+			if zb, ok := unhex(ws[1]); ok {
+				if _, err := time.LoadLocation(string(zb)); err != nil {
+					panic("c09: timezone op with a zone this machine cannot load: " + string(zb))
+				}
+				setZone(string(zb))
+				emit(line, "ok zone="+types.TIMEZONE.String(), "timezone:"+string(zb), true)
+				return
+			}
+		}
 	case "config":
 		if H.started && len(ws) == 2 && len(ws[1]) == 5 && strings.Trim(ws[1], "01") == "" {
 			b := func(i int) bool { return ws[1][i] == '1' }
@@ -785,6 +797,9 @@ func do(line string) {
 			return
 		}
 	case "reset":
+		if zoneName != "Asia/Taipei" {
+			setZone("Asia/Taipei")
+		}
 		C = defaultCfg
 		applyCfg(C)
 		out, label := doReset(ws)
@@ -873,6 +888,23 @@ func do(line string) {
 	emit(line, "bad-op", "bad-op", false)
 }
 
+// setZone configures the site's time zone the way a deployment does: an ini file with
+// [go-pttbbs:types] TIME_LOCATION, read by viper, then types.InitConfig (config -> postConfig -> setTimeLocation).
+func setZone(name string) {
+	ini := env.Path("c09-zone.ini")
+	if err := os.WriteFile(ini, []byte("[go-pttbbs:types]\nTIME_LOCATION = "+name+"\n"), 0o644); err != nil {
+		panic(err)
+	}
+	viper.SetConfigFile(ini)
+	if err := viper.ReadInConfig(); err != nil {
+		panic(err)
+	}
+	if err := types.InitConfig(); err != nil {
+		panic(err)
+	}
+	zoneName, zoneLoc = name, mustZone(name)
+}
+
 // applyCfg sets the package variables the ini file would set (restored to the defaults by every reset).
 func applyCfg(c siteCfg) {
 	ptttype.HAVE_ANONYMOUS = c.haveAnon
@@ -937,6 +969,8 @@ func main() {
 		"with and without the announcement tag (also truncated tags); bodies of 0..30 lines over {printable, space, TAB, NUL, ESC, '[', digits, ';', ',', movement finals, 'm', 's', 0x80-0xFE}, with/without a trailing empty line; " +
 		"sequences of 2..12 posts to the same and to different boards; time, date, random suffix and Ctime text masked on both sides (format and range judged by the oracle). " +
 		"pure streams: ptt.StripANSIMoveCmd and cmsys.Trim on enumerated short strings (all strings up to length 4 over a 7-symbol alphabet) and random lines. " +
+		"time zone: TIME_LOCATION set through an ini file + types.InitConfig to UTC, Pacific/Honolulu and Pacific/Kiritimati (at any moment one of the last two has another calendar date than Asia/Taipei), posts before and after; the oracle formats date and time line with its own time.LoadLocation. " +
+		"tag position: the announcement tag behind 1-3 blanks, a TAB, a NUL, a full-width blank, '[' or a letter, for every role, with and without a class. " +
 		"cold totals: histories that start with N records already in ALLPOST's (or the posted board's) index and a cached total of 0, as after ReloadBCache. " +
 		"printf metacharacters: '%' and verbs (%s %d %v %x %q %[1]s %*d %!) in every text field the post path renders — nickname (written into the user record by reset), title, class, body lines, ip, from text, and a board whose NAME is \"Pct%s%d%v\". " +
 		"site configuration: all 32 settings of HAVE_ANONYMOUS, ALLOW_FREE_TN_ANNOUNCE, USE_POST_ENTROPY, QUERY_ARTICLE_URL, USE_AID_URL (set in-process, restored by reset), each with posts to the anonymous-flagged, the moderated+credited and a plain board, tagged titles included. " +
